@@ -99,7 +99,7 @@ static double ulpF(double x) {
 // at most half an ulp; the second ulp absorbs the double roundings of the two unit conversions.
 static bool eqF(double a, double b) {
     if (a == b) return true;
-    if (std::isnan(a) || std::isnan(b)) return false;
+    if (!std::isfinite(a) || !std::isfinite(b)) return false;   // inf <= tol * inf would pass
     // 2^-22 relative = 2 ulp(float) at the top of a binade.  The rounding happens in output units, the comparison in SI, so the
     // tolerance must not depend on the binade: rounding to REAL (<= 2^-24) + 8 significant decimal digits of a formatted
     // REAL (<= 5e-8) + rounding of that decimal back to REAL (<= 2^-24) = 1.7e-7 < 2^-22 = 2.4e-7.
@@ -107,7 +107,7 @@ static bool eqF(double a, double b) {
 }
 static bool eqRel(double a, double b, double tol) {
     if (a == b) return true;
-    if (std::isnan(a) || std::isnan(b)) return false;
+    if (!std::isfinite(a) || !std::isfinite(b)) return false;
     return std::fabs(a - b) <= tol * std::max(std::fabs(a), std::fabs(b));
 }
 static std::string num(double v) { char b[40]; snprintf(b, sizeof b, "%.17g", v); return b; }
